@@ -30,6 +30,7 @@ RULE = (
 RULE += '; an earlier complete call of the same wrapper (own outcome script) may precede the judged call'
 RULE += '; one exception instance per kind may be raised again and again; the calling task may have absorbed a cancel earlier'
 RULE += '; success values may be exception instances; caught exceptions may have falsy instances'
+RULE += '; empty caught sets; async attempts that themselves take virtual time'
 LEVEL_TEXT = (
     "Reference scan of the scripted outcome sequence decides the number of invocations, the returned value / raised "
     "exception object (identity), and the exact list of pauses. Finite configuration space: enumerated completely for "
@@ -59,7 +60,8 @@ DELAYS = [
     {"k": "fn"},
 ]
 # "tuple_cancel": CancelledError named explicitly in the caught set - documented to be propagated anyway
-CATCHINGS = [("default", 1), ("class", 1), ("tuple", 1), ("tuple", 2), ("set", 1), ("set", 2), ("tuple_cancel", 1)]
+# "tuple0" / "set0": an EMPTY caught set (a computed collection that came out empty) - every exception is outside it
+CATCHINGS = [("default", 1), ("class", 1), ("tuple", 1), ("tuple", 2), ("set", 1), ("set", 2), ("tuple_cancel", 1), ("tuple0", 0), ("set0", 0)]
 
 
 class CaughtA(Exception):
@@ -121,6 +123,8 @@ def _make_exc(kind, i, ncatch, builtin=False, falsy=False):
 
 
 def _retryable(kind, catching):
+    if catching in ("tuple0", "set0"):
+        return False
     if kind in ("caught", "sub", "deep"):
         return True
     if kind == "uncaught":
@@ -227,8 +231,10 @@ def run_case(case) -> Outcome:
 
     def end_warm_up():
         phase["seq"] = seq
-        for lst in (calls, produced, delay_log, pauses):
+        for lst in (calls, produced, delay_log, pauses, starts):
             lst.clear()
+
+    starts: list = []
 
     def behave(a, kw):
         i = len(calls)
@@ -272,6 +278,10 @@ def run_case(case) -> Outcome:
         catching = set(classes_)
     elif case["catching"] == "tuple_cancel":
         catching = (fam[0], asyncio.CancelledError)
+    elif case["catching"] == "tuple0":
+        catching = ()
+    elif case["catching"] == "set0":
+        catching = set()
     else:
         catching = None
 
@@ -325,7 +335,15 @@ def run_case(case) -> Outcome:
         gaps = None
     else:
 
+        dur = case.get("dur") or 0
+        real_sleep = asyncio.sleep
+
         async def fn(*a, **kw):
+            # "dur": every attempt itself takes (virtual) time before it ends: the pause is what lies between the END of an
+            # attempt and the START of the next one, and it does not depend on how long the attempt took
+            starts.append(clock["now"]())
+            if dur:
+                await real_sleep(dur)
             return behave(a, kw)
 
         wrapped = decorate(fn)
@@ -379,7 +397,7 @@ def run_case(case) -> Outcome:
         result["v"] = res.value
         # a binding that exists but is not the one the library calls records nothing: then the virtual-time gaps decide alone
         observed_pauses = pauses if (saved is not None and pauses) else None
-        gaps = [calls[i + 1][2] - calls[i][2] for i in range(len(calls) - 1)]
+        gaps = [starts[i + 1] - calls[i][2] for i in range(len(calls) - 1)] if len(starts) >= len(calls) else None
 
     exp_calls, term = model(case)
     kind = seq[term]
@@ -538,7 +556,7 @@ def strategy(tier):
         kwargs = draw(st.dictionaries(st.sampled_from(["k", "x", "y"]), st.integers(0, 3), max_size=2))
         builtin = draw(st.sampled_from([False, False, True]))
         warm = draw(st.one_of(st.none(), st.none(), st.lists(st.sampled_from(["caught", "caught", "sub", "ok", "uncaught"]), min_size=1, max_size=limit + 1)))
-        return {"builtin": builtin, "warm": warm, "in_scope": draw(st.integers(0, 2)) == 0, "shared_exc": draw(st.integers(0, 3)) == 0, "swallowed_cancel": draw(st.integers(0, 4)) == 0, "falsy_exc": draw(st.integers(0, 3)) == 0, "ok_exc": draw(st.integers(0, 3)) == 0, **_case(
+        return {"builtin": builtin, "warm": warm, "in_scope": draw(st.integers(0, 2)) == 0, "shared_exc": draw(st.integers(0, 3)) == 0, "swallowed_cancel": draw(st.integers(0, 4)) == 0, "falsy_exc": draw(st.integers(0, 3)) == 0, "ok_exc": draw(st.integers(0, 3)) == 0, "dur": draw(st.sampled_from([0, 0, 0.125, 0.5, 3])), **_case(
             draw(st.sampled_from(["sync", "async"])),
             draw(st.booleans()) and draw(st.booleans()),
             limit,
